@@ -20,6 +20,8 @@ CONSTANTS
   FeeOnRemainder = FALSE
   EvictMode = "nodeps"
   ReconcileMature = TRUE
+  NrdEnabled = FALSE
+  NrdHeight = 9
   ShortReorg = FALSE
   MaxBlocks = 2
   MaxSteps = 3
